@@ -192,7 +192,7 @@ def classify(ctx, label, path, args, events):
 def run(ctx):
     if ctx.prop == "C06":
         import check_inrange
-    if not ctx.replay:
+    if not ctx.replay and not os.environ.get('VERIF_SKIP_DESIGN'):   # (the env switch is for mutation experiments only)
         design(ctx)
     for label, path, args in harness_traces(ctx):
         events = vlib.read_ndjson(path)
